@@ -544,6 +544,12 @@ func (c *client) receive(r io.Reader) (err error) {
 		cellsLen = header.CellBlockMeta.GetLength()
 	}
 	if d, ok := rpc.(canDeserializeCellBlocks); cellsLen > 0 && ok {
+		if uint64(headerLen)+uint64(responseLen)+uint64(cellsLen) > uint64(size) {
+			err = RetryableError{fmt.Errorf(
+				"failed to decode the response: cellblock length %d does not fit in %d bytes",
+				cellsLen, size)}
+			return
+		}
 		b := b[size-cellsLen:]
 		if c.compressor != nil {
 			b, err = c.compressor.decompressCellblocks(b)
